@@ -166,7 +166,7 @@ def events_suite(ctx, n):
     # ---- out-of-band listing
     ok2 = True
     scheds = []
-    for _ in range(200 if ctx.quick() else 3000):
+    for _ in range(200 if ctx.quick() else 1500):
         sched = gen_sched(rng)
         sched['inband'] = rng.random() < 0.3
         scheds.append(sched)
@@ -412,8 +412,8 @@ def run(ctx):
                     'are not generated and count as not modelled']
     ctx.assumptions += ['interval >= 1, count >= 0, run of consecutive segments (a_i+1 = b_i)',
                         'SCTE-35 round trip: field values within their bit widths, program splice / program segmentation']
-    events_suite(ctx, 500 if ctx.quick() else 15000)
-    scte35_suite(ctx, 600 if ctx.quick() else 20000)
+    events_suite(ctx, 500 if ctx.quick() else 6000)
+    scte35_suite(ctx, 600 if ctx.quick() else 8000)
 
 
 def replay(ctx, payload):
